@@ -553,3 +553,32 @@ def _dict_nonempty(se, a, kw):
     if d.ty.kind == "dictv":
         raise Unsupported("dict_nonempty of a pure dict value")
     return vbool(ops.truthy(se.st, d))
+
+
+@specfun("spec_args")
+def _spec_args(se, a, kw):
+    return V(SEQ(STR), ops.UF("spec_args", z3.IntSort(), z3.SeqSort(z3.StringSort()))(a[0].t))
+
+
+def _opt_str_fun(name):
+    def f(se, a, kw):
+        return vopt(STR, ops.UF(name + "_none", z3.IntSort(), z3.BoolSort())(a[0].t),
+                    V(STR, ops.UF(name, z3.IntSort(), z3.StringSort())(a[0].t)))
+    return f
+
+
+SPECFUNS["spec_varargs"] = _opt_str_fun("spec_varargs")
+SPECFUNS["spec_varkw"] = _opt_str_fun("spec_varkw")
+
+
+def in_prefix_fn(elem_sort):
+    return ops.UF("in_prefix_%s" % str(elem_sort).replace(" ", "_"), z3.SeqSort(elem_sort), z3.IntSort(), elem_sort, z3.BoolSort())
+
+
+@specfun("in_prefix")
+def _in_prefix(se, a, kw):
+    """in_prefix(s, i, k): k occurs among the first i elements of s (defined by recursion on i;
+    the loop rule supplies the unfolding instances, R6)."""
+    s = se.seq(a[0])
+    k = coerce(a[2], s.ty.args[0])
+    return vbool(in_prefix_fn(sort_of(s.ty.args[0]))(s.t, a[1].t, k.t))
